@@ -1517,5 +1517,27 @@ theorem Runes.lineOf_eq {src : List Nat} {o : Nat} {rs : List Int} (h : Runes sr
     lineOf rs = 1 + (src.take o).count 10 := by
   rw [lineOf, h.count10]
 
+/-- `'\e'` for a simple escape `e` (one of `a b f n r t v \ ' "`) scans as a `char_lit` -/
+theorem scansAs_charLit_esc (u : UnicodeOracle) {e : Nat}
+    (he : e = 97 ∨ e = 98 ∨ e = 102 ∨ e = 110 ∨ e = 114 ∨ e = 116 ∨ e = 118 ∨ e = 92 ∨ e = 39 ∨
+      e = 34) : ScansAs u [39, 92, e, 39] tCharLit := by
+  refine ⟨by decide, by simp, noWsHead_cons (by decide), ?_⟩
+  intro x s hx h
+  obtain ⟨c0, a1, p1⟩ := next_at_ascii h (by omega) (by omega)
+  obtain ⟨c1, a2, p2⟩ := next_at_ascii a1 (by omega) (by omega)
+  obtain ⟨c2, a3, p3⟩ := next_at_ascii a2 (by omega) (by omega)
+  obtain ⟨c3, a4, p4⟩ := next_at_ascii a3 (by omega) (by omega)
+  have hesc : scanEscape (next (next s)) = next (next (next s)) := by
+    unfold scanEscape
+    simp only [c2]
+    rw [if_pos (by omega)]
+  have hloop : charLoop (fuel (next s)) 0 (next s) = (1, next (next (next s))) := by
+    have : fuel (next s) = x.length + 3 + 1 + 1 := by simp [fuel, a1.cur]
+    rw [this]
+    simp [charLoop, c1, hesc, c3]
+  refine ⟨mkTok tCharLit (position s) (next (next (next (next s)))), next (next (next (next s))),
+    ?_, rfl, mkTok_lit h (by simp [p1, p2, p3, p4]) _, a4⟩
+  simp [scanOnce, c0, isLetter, scanChar, hloop]
+
 end FScan
 end Gocc
